@@ -120,6 +120,41 @@ def _same_doc(a, b):
         and ce(x["edges"]) == ce(y["edges"])
 
 
+class _Minted:
+    """what stands in for the uuid the library generates while `minting(g)` is active: str() / hex / urn give g"""
+
+    def __init__(self, g):
+        self.g = g
+        self.hex = self.urn = g
+
+    def __str__(self):
+        return self.g
+
+    __repr__ = __str__
+
+
+class minting:
+    """with minting(g): every id the library mints through the uuid module (uuid1 / uuid4) is g.  Used for id-less imports:
+    which id a call WITHOUT graph_id files its document under is the library's choice; the harness turns that choice into
+    the request's graph id (one that holds no nodes), so an id-less import is the model's `add_graph g` - and a library that
+    does not mint an id for such a call, but takes one from somewhere else (the document, the path, an earlier call), files
+    the document under another id than g, which correspondence and oracle then see."""
+
+    def __init__(self, g):
+        self.g = g
+
+    def __enter__(self):
+        import uuid
+        self.saved = (uuid.uuid1, uuid.uuid4)
+        uuid.uuid1 = uuid.uuid4 = lambda *a, **k: _Minted(self.g)
+        return self
+
+    def __exit__(self, *a):
+        import uuid
+        uuid.uuid1, uuid.uuid4 = self.saved
+        return False
+
+
 class Backend:
     """`handles` says which graph-handle OBJECT serves a request (the wire protocol and the models only name the graph id -
     in the models a handle is the graph id and nothing else):
@@ -167,6 +202,12 @@ class Backend:
         if tolerant_lock:
             self.storage.lock = TolerantLock()
         self.import_keys = None     # optional callable n -> list of node keys for the next import
+        # id-less imports (entry "importer" only): the probability that an `add_graph` request whose target id holds no nodes
+        # is served by import_graph_from_string / import_graph_from_file called WITHOUT graph_id - the library then has to
+        # mint an id of its own; the harness makes the id it mints the request's (`minting`), so that the wire request and
+        # the model stay `add_graph g` with g not in use (ImportEntry.Fresh).  via is then "string-idless" / "file-idless"
+        # (also accepted in `plan`; honoured only while the target holds no nodes).  0 = never (what C05 runs).
+        self.idless = 0.0
 
     def fresh(self, g):
         return self.cls(graph_id=g, importer=self.importer)
@@ -255,6 +296,9 @@ class Backend:
             assert ig_of_nx(gr) == before, "store mutated the graph handed to it"
             return None
         if op == "delete_graph":
+            if self.entry == "importer" and (self.hseed + self.calls) % 2 == 1:
+                # the importer's own entry point for deleting a graph (every other deletion of an importer-served history)
+                return self.importer.delete_graph(graph_id=g)
             return self.pg(g).delete_graph()
         if op == "delete_all_graphs":
             return self.importer.delete_all_graphs()
@@ -280,8 +324,12 @@ class Backend:
         via = "file" if r.random() < 0.75 else "string"
         fmt = r.choice(ENTRY_FMTS)
         slot = r.randrange(self.npaths)
+        if self.idless and op == "add_graph" and random.Random(self.hseed * 104729 + self.calls * 31 + 1).random() < self.idless:
+            via += "-idless"
         if str(self.calls) in self.plan:
             via, fmt, slot = self.plan[str(self.calls)]
+        if via.endswith("-idless") and (op != "add_graph" or self.stored(g)):
+            via = via[:-len("-idless")]     # an id in use cannot be the id the library mints
         for f in (fmt,) + tuple(x for x in ENTRY_FMTS if x != fmt):
             try:
                 text = doc_text(gr, f)
@@ -314,9 +362,16 @@ class Backend:
         imp = self.importer
         self.imports.append((self.calls, via, fmt, slot))
         self.last_import = (via, fmt, slot, None)
-        if via == "file":
+        if via.startswith("file"):
             with open(self.path(slot), "w") as f:      # the work file is overwritten with the next document
                 f.write(text)
+        if via == "file-idless":
+            with minting(g):
+                r = imp.import_graph_from_file(graph_file=self.path(slot))
+        elif via == "string-idless":
+            with minting(g):
+                r = imp.import_graph_from_string(graph_string=text)
+        elif via == "file":
             if op == "add_graph":
                 r = imp.import_graph_from_file(graph_file=self.path(slot), graph_id=g)
             else:
